@@ -123,7 +123,7 @@ RInit(filters, topics, cids) ==
      retained |-> [t \in topics |-> NOMSG],
      wills |-> [c \in cids |-> NOMSG],
      grave |-> [c \in cids |-> NOGRAVE],
-     unsubs |-> [c \in cids |-> [f \in filters |-> 0]],     \* ghost: successful unsubscribes per client id and filter
+     unsubNow |-> {},            \* ghost: <<client id, filter>> unsubscribed in the router step that led to this state
      groups |-> [k \in {GroupKey(f) : f \in {x \in filters : IsShared(x)}} |-> NOGROUP],   \* Router.shared_subscriptions
      panicked |-> FALSE]
 
@@ -354,7 +354,7 @@ UnsubOne(r, id, f) ==
               IN
               [r |-> [r1 EXCEPT !.conns[id].subs = @ \ {f},
                                 !.conns[id].reqs = SelectSeq(@, LAMBDA q : q.f # f),        \* untrack
-                                !.unsubs[cid][f] = @ + 1,
+                                !.unsubNow = @ \cup {<<cid, f>>},
                                 !.groups = groups1,
                                 !.waiters[wkey] = IF idx = {} THEN w
                                                   ELSE SwapRemove(w, CHOOSE i \in idx : \A j \in idx : i <= j)],
